@@ -198,7 +198,7 @@ def run_real(std, src, ignore_comments=True, process_directives=False, intern=No
     res = dict(kind=out.kind if not out.kind.startswith("escape:") else "escape:" + esc_class(out.kind),
                line=out.line or 0, cost=cc.reader_calls, depth=fp.scope_depth(),
                tables=fp.tables_str(intern), shape="", exc=out.exc, raw_kind=out.kind,
-               lcost=sum(len(getattr(it, "parse_cache", ())) for it in order))
+               lcost=sum(len(getattr(it, "parse_cache", ())) for it in order), nitems=len(order))
     if out.kind == "tree":
         res["shape"] = real_shape(T, out.tree, seen)
     fp.SYMBOL_TABLES.clear()
@@ -222,6 +222,12 @@ def compare(std, src, model=None, **kw):
             model.close()
     r = run_real(std, src, intern=m["intern"], **kw)
     diffs = []
+    if r["nitems"] > m["nitems"]:
+        # the parser obtained more items from the reader than iterating over the reader delivers (a line that
+        # starts with ';' ends the iteration but not the parser's own reading): the model was not given the same
+        # input, nothing can be compared
+        m["skipped"] = True
+        return True, [], m, r
     for key in ("kind", "shape", "cost", "lcost", "depth", "tables"):
         if m[key] != r[key]:
             diffs.append("%s: model=%r real=%r" % (key, m[key], r[key]))
@@ -256,7 +262,7 @@ def _worker_case(case):
         _models.pop(std, None)
         raise
     return dict(ok=ok, diffs=diffs, kind=r["raw_kind"], mkind=m["kind"], cost=r["cost"], queries=m["queries"],
-                nitems=m["nitems"])
+                nitems=m["nitems"], skipped=bool(m.get("skipped")))
 
 
 def corr_cases(cases, nproc=None):
@@ -270,6 +276,9 @@ def corr_cases(cases, nproc=None):
     for case, (st, r) in zip(cases, res):
         if st != "ok":
             harness.append(dict(case=case, error=r))
+            continue
+        if r.get("skipped"):
+            kinds["skipped:item_streams_differ"] = kinds.get("skipped:item_streams_differ", 0) + 1
             continue
         kinds[r["kind"]] = kinds.get(r["kind"], 0) + 1
         distinct.add(hash(case[1]))
